@@ -30,11 +30,31 @@ def fn_bounds():
     return ";".join(" ".join(l) for l in lists if l)
 
 
+def val_bounds():
+    """The bound lists a host value `Val<T>` has to pass (`impl … Value for Val<T>`
+    and `Value::Transformed`), as words, for the driver's `c12 admits`."""
+    try:
+        text = open(GEN).read()
+    except OSError:
+        return None
+    out = []
+    for field in ("valImpl", "valueTransformed"):
+        m = re.search(field + r" := \[([^\]]*)\]", text)
+        if not m:
+            return None
+        ws = [w.strip().lstrip(".") for w in m.group(1).split(",")]
+        out.append(" ".join(w for w in ws if w in BOUND_WORDS))
+    return ";".join(out)
+
+
 def harness_args(ctx, seed, tier):
     args = ["run", seed, tier, "--repo", ctx.repo]
     b = fn_bounds()
     if b:
         args += ["--fn-bounds", b]
+    v = val_bounds()
+    if v:
+        args += ["--val-bounds", v]
     return args
 
 
@@ -43,6 +63,7 @@ FOCUS = {
     "lock_discipline_on_tree": ["swap-rust", "swap-script"],
     "counts_atomic_on_tree": ["refcount-storm"],
     "closures_own_on_tree": ["into-func"],
+    "slots_in_frame_on_tree": ["frame-slots"],
 }
 
 
@@ -58,7 +79,9 @@ def share_focus(ctx):
             if name.endswith("." + thm):
                 focus += [c for c in classes if c not in focus]
     if "extract:c12sharing" in ctx.broken and not focus:
-        focus = [c for cs in FOCUS.values() for c in cs]
+        focus = [c for t, cs in FOCUS.items() for c in cs if t != "slots_in_frame_on_tree"]
+    if "extract:c12frame" in ctx.broken:
+        focus = (focus or []) + ["frame-slots"]
     return focus or None
 
 
@@ -117,9 +140,9 @@ def tsan(ctx):
 
 
 def run(ctx):
-    ctx.extract(["c12bounds", "c12sharing", "c12instr", "c12globals"])
+    ctx.extract(["c12bounds", "c12sharing", "c12instr", "c12globals", "c12frame"])
     ctx.prove(PROPS, extra_modules=["RotoV.Lemmas.Conc", "RotoV.Model.Conc", "RotoV.Lemmas.ConcShare", "RotoV.Model.ConcShare",
-                                     "RotoV.Lemmas.ConcExec", "RotoV.Model.ConcExec", "RotoV.Model.ConcInstr"])
+                                     "RotoV.Lemmas.ConcExec", "RotoV.Model.ConcExec", "RotoV.Model.ConcInstr", "RotoV.Model.ConcFrame", "RotoV.Lemmas.ConcFrame"])
     if ctx.build_harness("c12"):
         ctx.harness("c12", harness_args(ctx, ctx.seed, ctx.tier), timeout=3000)
         if ctx.tier == "thorough":
